@@ -179,7 +179,11 @@ type Engine struct {
 func listenOn(port string, h http.Handler) {
 	l, err := net.Listen("tcp", "127.0.0.1:"+port)
 	must(err)
-	go func() { _ = http.Serve(l, h) }()
+	// no keep-alive: the engine opens a new client connection for every management request and leaves it idle;
+	// over tens of thousands of requests in one harness process the descriptors would run out
+	srv := &http.Server{Handler: h}
+	srv.SetKeepAlivesEnabled(false)
+	go func() { _ = srv.Serve(l) }()
 }
 
 // BootEngine writes the initial configuration, starts the fake HAProxy and boots the real engine.
